@@ -795,6 +795,8 @@ impl WriterSet {
                 closed_stream_index,
             )
         };
+        #[cfg(feature = "verif-hooks")]
+        crate::verif::pause("rollover:after-index-swap");
 
         self.reader_pool.add_bucket_segment(
             old_bucket_segment_id,
@@ -803,8 +805,12 @@ impl WriterSet {
             Some(&closed_partition_index),
             Some(&closed_stream_index),
         );
+        #[cfg(feature = "verif-hooks")]
+        crate::verif::pause("rollover:after-sealed-installed");
         self.reader_pool
             .add_bucket_segment(self.bucket_segment_id, &self.reader, None, None, None);
+        #[cfg(feature = "verif-hooks")]
+        crate::verif::pause("rollover:done");
 
         Ok(())
     }
